@@ -32,7 +32,7 @@ TStep ==
   /\ \/ Ev.ev = "create" /\ Create(Ev.m) /\ NoD
      \/ Ev.ev = "early" /\ EarlyInit(Ev.m) /\ NoD
      \/ Ev.ev = "init" /\ InitModule(Ev.m) /\ NoD
-     \/ Ev.ev = "attach" /\ AttachSeen(Ev.u, Ev.t) /\ NoD
+     \/ Ev.ev = "attach" /\ Ev.got = Ev.t /\ AttachSeen(Ev.u, Ev.t) /\ NoD    \* the attribute gives the module named
      \/ Ev.ev = "attach" /\ ~Healthy /\ Same /\ NoD          \* error path of a configuration that is being refused
      \/ Ev.ev = "start" /\ Healthy /\ StartModule(Ev.m) /\ NoD
      \/ Ev.ev = "write" /\ Healthy /\ Write(Ev.m) /\ NoD
